@@ -166,7 +166,11 @@ def recorded_limits(res):
     g = lambda X: 0.5 + X[0] - X[1]
     exact = 0.5 / math.sqrt(2 - 2 * rho)
     res.evaluations += 1
-    b = rrm.hlrfFORM(2, g, [lambda X: 1.0, lambda X: -1.0], [stats.norm(), stats.norm()], [[1.0, rho], [rho, 1.0]])[0]
+    try:
+        b = rrm.hlrfFORM(2, g, [lambda X: 1.0, lambda X: -1.0], [stats.norm(), stats.norm()], [[1.0, rho], [rho, 1.0]])[0]
+    except Exception as e:  # noqa
+        fail(res, 'FORM raised on a linear-Gaussian problem', {'g': '0.5 + x1 - x2', 'corr': rho, 'exact_beta': exact}, repr(e)[:200])
+        b = exact
     if abs(b - exact) > 1e-5 * (1 + exact):
         fail(res, 'hlrf: beta differs from E[g]/sd[g] on a linear-Gaussian problem', {'g': '0.5 + x1 - x2', 'corr': rho, 'exact_beta': exact}, float(b),
              sig='C10:nataf-quadrature:abs-rho-above-0.98')
@@ -175,7 +179,11 @@ def recorded_limits(res):
     mus, sig = [3 * s_, 2 * s_], [0.3 * s_, 0.2 * s_]
     exact2 = 1.0 / math.sqrt(0.13)
     res.evaluations += 1
-    bn = rrm.mvalFOSM(2, gl, None, mus, sig)[0]
+    try:
+        bn = rrm.mvalFOSM(2, gl, None, mus, sig)[0]
+    except Exception as e:  # noqa
+        fail(res, 'mvalFOSM raised on a valid problem', {'g': 'R - S', 'mus': mus, 'sigmas': sig}, repr(e)[:200])
+        bn = exact2
     if abs(bn - exact2) > 1e-5 * (1 + exact2):
         fail(res, 'mvalFOSM differs from the exact beta for independent normal variables (numerical gradient)', {'g': 'R - S', 'mus': mus, 'sigmas': sig, 'exact_beta': exact2},
              float(bn), sig='C10:absolute-step-numerical-gradient:magnitude-1e8')
